@@ -29,8 +29,14 @@ structure DSt where
   oldInst : Bool
   /-- type token (`ki|kb|ni|nb`) of every topic name of the scenario (needed to validate filter expressions) -/
   ttypes : List (String × String)
+  /-- discovery, tracked outside the model (its result is the `discovered` argument of `Op.findTopic`):
+      `announced` = (announcing participant, topic name) for every topic a LIVE participant created enabled (the entries of
+      its built-in DCPSTopic writer, which new participants still receive); `known` = (participant, topic name) pairs in a
+      participant's `discovered_topic_list` (never shrinks). Assumes one domain and default-enabled participants. -/
+  announced : List (Nat × String)
+  known : List (Nat × String)
 
-def defaultSt : DSt := { m := St.init .debug, names := Array.replicate NBUCKETS [], old := false, oldInst := false, ttypes := [] }
+def defaultSt : DSt := { m := St.init .debug, names := Array.replicate NBUCKETS [], old := false, oldInst := false, ttypes := [], announced := [], known := [] }
 
 def mstep (d : DSt) (op : Op) : St × Res :=
   if d.old then stepOld d.m op
@@ -59,6 +65,7 @@ def errS : Err → String
   | .illegalOperation => "err:IllegalOperation"
   | .outOfResources => "err:OutOfResources"
   | .inconsistentPolicy => "err:InconsistentPolicy"
+  | .timeout => "err:Timeout"
 
 def showRes (keyed : Bool) : Res → String
   | .ok => "ok"
@@ -188,7 +195,11 @@ def prim (d : DSt) (ts : List String) : DSt × String :=
     let (plain, kv) := splitKv rest
     match plain, autoOpt kv, kvOnly kv ["autoenable", "domain"] with
     | [name], some a, true =>
-      creation d name (.createPart a) (fun h => .part h.pfx)
+      let (d', o) := creation d name (.createPart a) (fun h => .part h.pfx)
+      -- a new participant receives what the live participants have announced (transient-local built-in writers)
+      match lookupName d' name, o.startsWith "ok" with
+      | some (.part ph), true => ({ d' with known := d'.announced.map (fun p => (ph, p.2)) ++ d'.known }, o)
+      | _, _ => (d', o)
     | _, _, _ => (d, "bad-op")
   | "publisher" :: rest =>
     let (plain, kv) := splitKv rest
@@ -210,8 +221,25 @@ def prim (d : DSt) (ts : List String) : DSt × String :=
     match lookupName d parent, tyKeyed ty with
     | some (.part ph), some k =>
       let (d', o) := creation d name (.createTopic ph tname k) (fun h => .topic { ph := ph, name := tname } h)
-      (if o.startsWith "ok" then { d' with ttypes := (name, ty) :: d'.ttypes } else d', o)
+      if o.startsWith "ok" then
+        -- an enabled topic is announced: every live participant (the announcer included) discovers it
+        let enabled := match findTopic d'.m ph tname with
+          | some t => t.enabled
+          | none => false
+        let d2 := { d' with ttypes := (name, ty) :: d'.ttypes }
+        if enabled then
+          ({ d2 with announced := (ph, tname) :: d2.announced
+                     known := d2.m.parts.map (fun p => (p.uid % U32, tname)) ++ d2.known }, o)
+        else (d2, o)
+      else (d', o)
     | _, _ => (d, "bad-op")
+  | "find-topic" :: name :: parent :: tname :: ty :: rest =>
+    match lookupName d parent, tyKeyed ty, rest.all (fun t => t.toNat?.isSome) && rest.length ≤ 1 with
+    | some (.part ph), some k, true =>
+      let disc := d.known.any (fun p => p.1 == ph && p.2 == tname)
+      let (d', o) := creation d name (.findTopic ph tname k disc) (fun h => .topic { ph := ph, name := tname } h)
+      (if o.startsWith "ok" then { d' with ttypes := (name, ty) :: d'.ttypes } else d', o)
+    | _, _, _ => (d, "bad-op")
   | "cft" :: name :: parent :: topic :: cname :: params :: e :: es =>
     match lookupName d parent, lookupName d topic with
     | some (.part _), some (.topic r _) =>
@@ -243,7 +271,9 @@ def prim (d : DSt) (ts : List String) : DSt × String :=
     | _, _ => (d, "bad-op")
   | ["delete", name] =>
     match lookupName d name with
-    | some (.part ph) => plainOp d (.deletePart ph)
+    | some (.part ph) =>
+      let (d', o) := plainOp d (.deletePart ph)
+      (if o == "ok" then { d' with announced := d'.announced.filter (fun p => p.1 != ph) } else d', o)
     | some (.pub r) => plainOp d (.deletePub r.ph r)
     | some (.sub r) => plainOp d (.deleteSub r.ph r)
     | some (.topic r _) => plainOp d (.deleteTopic r.ph r)
@@ -273,6 +303,8 @@ def prim (d : DSt) (ts : List String) : DSt × String :=
     | some (.reader w) => plainOp d (.enableReader w)
     | some _ => (d, "unsupported")
     | none => (d, "bad-op")
+  -- virtual time has no effect on the entity tree (discovery is instantaneous in the simulator)
+  | ["advance", ns] => (d, if ns.toNat?.isSome then "ok" else "bad-op")
   | ["handle", name] =>
     match lookupName d name with
     | some (.part ph) => (d, "ok " ++ showHandle (partHandle ph))
